@@ -269,6 +269,18 @@ def explore(tier, seed):
                 divergence.append(sig)
                 continue
         violations.append(Violation(PROP, sig, f"include={list(cfg[2])} exclude={list(cfg[3])} mode={cfg[0]} target={cfg[1]}: {detail}"[:600], {"cfg": [cfg[0], cfg[1], list(cfg[2]), list(cfg[3])], "sig": sig}, key[0]))
+    # a large project: every selected file with a fixable construct is still fixed - also files in places other tools
+    # ignore by default (vendor/, node_modules/, a git-ignored directory), with 700 unrelated siblings in long directories
+    from . import c11
+
+    crowd = {}
+    for kind in ("semgrep-detected", "detector-less") if tier == "thorough" else ("semgrep-detected",):
+        out, n_changed = c11.crowd_eval((kind, 700))
+        crowd[kind] = n_changed
+        if n_changed != len(c11.CROWD_TARGETS):
+            sig = f"{'semgrep' if kind == 'semgrep-detected' else 'fix'}|large-project|missing-files"
+            if sig in known_open or c11.crowd_eval((kind, 700))[1] != len(c11.CROWD_TARGETS):
+                violations.append(Violation(PROP, sig, f"with 700 unrelated sibling files only {n_changed} of the {len(c11.CROWD_TARGETS)} selected files with a fixable construct were fixed ({c11.CROWD_TARGETS})", {"crowd": kind, "sig": sig}, 1))
     conf = 0
     for cfg in [c for c in cfgs if c[0] == "fix" and c[2] and c[3]][:3]:
         a, b = eval_cfg(cfg), eval_cfg_cli(cfg)
@@ -290,6 +302,7 @@ def explore(tier, seed):
         "modes": MODES,
         "cli_conformance_replays": conf,
         "cli_divergence": divergence,
+        "large_project": {"siblings": 700, "targets_fixed": crowd},
         "rule": "configuration = (mode, target location, include list, exclude list); one real run each; compared with ref_select_paths; non-trivial = at least one file changed",
     }
     assumptions = [
@@ -302,6 +315,12 @@ def explore(tier, seed):
 
 
 def replay(rp):
+    if "crowd" in rp:
+        from . import c11
+
+        drive.init_inproc()
+        out, n = c11.crowd_eval((rp["crowd"], 700))
+        return (n == len(c11.CROWD_TARGETS)), f"{n} of {len(c11.CROWD_TARGETS)} targets fixed"
     cfg = (rp["cfg"][0], rp["cfg"][1], tuple(rp["cfg"][2]), tuple(rp["cfg"][3]))
     found, _ = eval_cfg_cli(cfg)
     return (rp["sig"] not in {s for s, _ in found}), "\n".join(f"{s}: {d}" for s, d in found) or "changed files == reference selection"
